@@ -26,6 +26,7 @@ type HistStep struct {
 	From int    `json:"from,omitempty"`
 	Key  int    `json:"key,omitempty"`
 	Size int    `json:"size,omitempty"`
+	Op   int    `json:"op,omitempty"` // which write operation of the store type (put / delete / batch put)
 }
 
 type Delivery struct {
@@ -63,6 +64,7 @@ func genHist(rt *rapid.T, authors, maxSteps int) []HistStep {
 		} else {
 			h.Key = rapid.IntRange(0, 3).Draw(rt, "hkey")
 			h.Size = rapid.SampledFrom([]int{0, 1, 3, 40}).Draw(rt, "hsize")
+			h.Op = rapid.IntRange(0, 4).Draw(rt, "hop")
 		}
 		hs = append(hs, h)
 	}
@@ -125,12 +127,12 @@ func buildHistory(ctx context.Context, cl *world.Cluster, tr *tracker, typ strin
 		case "write":
 			s := cl.Stores[w]
 			before := hashSetOf(s)
-			op, err := writeAny(ctx, s, typ, h.Key, h.Size, *cnt)
+			ops, err := writeHist(ctx, s, typ, h, *cnt)
 			*cnt++
 			if err != nil {
 				return false, fail("history step %d: write failed: %v", i, err)
 			}
-			if err := tr.noteWrites(s, w, before, []model.Op{op}); err != nil {
+			if err := tr.noteWrites(s, w, before, ops); err != nil {
 				return false, fail("history step %d: %v", i, err)
 			}
 		case "merge":
@@ -518,3 +520,36 @@ func execC01(c CaseC01) *Outcome {
 }
 
 func TestC01(t *testing.T) { runCheck(t, "C01", genC01, execC01) }
+
+// writeHist issues the write operation selected by the history step: besides plain puts, deletes on
+// key-value and document stores and batch puts on document stores (a refused delete of an absent
+// document writes nothing).
+func writeHist(ctx context.Context, s iface.Store, typ string, h HistStep, tag int) ([]model.Op, error) {
+	k := fmt.Sprintf("k%d", h.Key)
+	switch {
+	case typ == "keyvalue" && h.Op == 2:
+		_, err := s.(iface.KeyValueStore).Delete(ctx, k)
+		return []model.Op{{Kind: "DEL", Key: k}}, err
+	case typ == "docstore" && h.Op == 2:
+		if _, err := s.(iface.DocumentStore).Delete(ctx, k); err != nil {
+			return nil, nil
+		}
+		return []model.Op{{Kind: "DEL", Key: k}}, nil
+	case typ == "docstore" && h.Op >= 3:
+		keys := []int{h.Key, h.Key + 1}
+		if h.Op == 4 {
+			keys = []int{h.Key + 1, h.Key, h.Key + 2}
+		}
+		var vals []interface{}
+		mop := model.Op{Kind: "PUTALL"}
+		for i, ki := range keys {
+			d := map[string]interface{}{"_id": fmt.Sprintf("k%d", ki%5), "data": fmt.Sprintf("batch-%d-%d", tag, i), "tag": tag}
+			vals = append(vals, d)
+			mop.Docs = append(mop.Docs, model.Doc{Key: fmt.Sprintf("k%d", ki%5), Val: docBytes(d)})
+		}
+		_, err := s.(iface.DocumentStore).PutAll(ctx, vals)
+		return []model.Op{mop}, err
+	}
+	op, err := writeAny(ctx, s, typ, h.Key, h.Size, tag)
+	return []model.Op{op}, err
+}
